@@ -612,7 +612,7 @@ Proof.
   assert (P : arena_ok (gr_arena g1) = true /\ all_live (gr_arena g1) /\ maps_own g1); [|tauto].
   refine (HistoryWF.fold_inv
             (fun g (n : string * option string * list dblock) =>
-               let '(name, meta, bs) := n in build_note g (key_from_file_name name) meta bs)
+               let '(name, meta, bs) := n in build_note g (key_name name) meta bs)
             (fun g => arena_ok (gr_arena g) = true /\ all_live (gr_arena g) /\ maps_own g) notes _ empty_graph g1 _ Hf).
   - intros [[name meta] bs] s0 s1 _ (Hok & Hl & HO) Hb.
     destruct (build_note_live s0 _ meta bs s1 (conj Hok Hl) Hb) as [Hok' Hl'].
@@ -776,7 +776,7 @@ Proof.
   revert k. change (maps_dom g1).
   refine (HistoryWF.fold_inv
             (fun g (n : string * option string * list dblock) =>
-               let '(name, meta, bs) := n in build_note g (key_from_file_name name) meta bs)
+               let '(name, meta, bs) := n in build_note g (key_name name) meta bs)
             maps_dom notes _ empty_graph g1 _ Hf).
   - intros [[name meta] bs] s0 s1 _ Hs Hb. eapply build_note_dom; eauto.
   - intros k. cbn. tauto.
